@@ -51,6 +51,7 @@ Next == PickTable \/ PickRest \/ PickReuse
 Spec == Init /\ [][Next]_vars
 
 PropertyHolds == /\ phase = "done" => Allowed(cfg, out)
+                 /\ (phase = "done" /\ Supported(cfg)) => StressAllowed(cfg, 3, StressModel(cfg, 3))
                  /\ phase = "reused" => ReuseAllowed(cfg, out)
 
 \* non-vacuity witnesses (each checked to be violated during development)
